@@ -4,6 +4,7 @@ mod c12;
 mod c13;
 mod c14;
 mod c15;
+mod c11;
 mod aut;
 mod dom;
 mod autprops;
@@ -64,6 +65,7 @@ fn main() {
             "c13" => c13::replay(&line, &mut o),
             "c14" => c14::replay(&line, &mut o),
             "c15" => c15::replay(&line, &mut o),
+            "c11" => c11::replay(&line, &mut o),
             "c01" | "c02" | "c03" | "c04" | "c05" | "c06" | "c07" | "c09" => autprops::replay(&line, &mut o),
             "c16" => c16::replay(&line, &mut o),
             _ => panic!("unknown property"),
@@ -74,6 +76,7 @@ fn main() {
             "c13" => c13::run(tier, seed, &mut o),
             "c14" => c14::run(tier, seed, &mut o),
             "c15" => c15::run(tier, seed, &mut o),
+            "c11" => c11::run(tier, seed, &mut o),
             "c01" | "c02" | "c03" | "c04" | "c05" | "c06" | "c07" | "c09" => autprops::run(&prop, tier, seed, &mut o),
             "c16" => c16::run(tier, seed, &mut o),
             _ => {
